@@ -35,7 +35,8 @@ def check(run, ctx):
     repo, cg = ctx.repo, ctx.cg
     A1 = run.rule("A1", "file targets and directory targets are routed to finalizing orchestrator methods by both entry points", floor=4,
                   decides="Linter.lint(file) and `thailint X file` report the same, cross-file rules included")
-    lib = repo.func("src.api.Linter._lint_path")
+    lib = repo.func_by_role("src.api.Linter._lint_path", "routes one target to the orchestrator's lint_file / lint_directory",
+                            lambda g: any(isinstance(n, ast.Call) and isinstance(n.func, ast.Attribute) and n.func.attr in ("lint_directory", "lint_files") and "orchestrator" in ast.unparse(n.func.value) for n in ast.walk(g.node)))
     cli = repo.func("src.cli.utils.execute_linting_on_paths")
     lr, cr = _routes(repo, lib), _routes(repo, cli)
     run.require(lr and cr, "entry points no longer call orchestrator lint methods")
@@ -48,7 +49,7 @@ def check(run, ctx):
             run.finding(A1, f"Orchestrator.{m}", f"finalize:{has}", f"Orchestrator.{m} {'now reaches' if has else 'no longer reaches'} rule.finalize(); the entry-point comparison below assumes the opposite", f.loc)
         else:
             run.ok(A1, f"Orchestrator.{m}", "finalizes" if fin else "does not finalize", nontrivial=False)
-    for name, f, routes in (("library Linter._lint_path", lib, lr), ("CLI execute_linting_on_paths", cli, cr)):
+    for name, f, routes in ((f"library Linter.{lib.name}", lib, lr), ("CLI execute_linting_on_paths", cli, cr)):
         for m in sorted(routes):
             kind = "directory" if "directory" in m else "file"
             if FINALIZING[m]:
@@ -76,9 +77,10 @@ def check(run, ctx):
     lcf = repo.func("src.cli.utils.load_config_file")
     same_loader = any(isinstance(n, ast.Call) and ast.unparse(n.func).endswith("config_loader.load") for n in ast.walk(lcf.node))
     (run.ok(A3, "--config loader", "orchestrator.config_loader.load") if same_loader else run.finding(A3, "load_config_file", "loader", "--config is not parsed by the shared LinterConfigLoader", lcf.loc))
-    fv = repo.func("src.api.Linter._filter_violations")
+    fv = repo.func_by_role("src.api.Linter._filter_violations", "keeps the violations whose rule_id is in the requested rule list",
+                           lambda g: any(isinstance(n, ast.Compare) and isinstance(n.ops[0], ast.In) and ast.unparse(n.left).endswith("rule_id") for n in ast.walk(g.node)))
     ok = any(isinstance(n, ast.Compare) and isinstance(n.ops[0], ast.In) and ast.unparse(n.left).endswith("rule_id") for n in ast.walk(fv.node))
-    (run.ok(A3, "library filter", "v.rule_id in rules") if ok else run.finding(A3, "Linter._filter_violations", "filter", "the library rule filter no longer selects by rule id", fv.loc))
+    (run.ok(A3, "library filter", "v.rule_id in rules") if ok else run.finding(A3, f"Linter.{fv.name}", "filter", "the library rule filter no longer selects by rule id", fv.loc))
     oi = repo.func("src.orchestrator.core.Orchestrator.__init__")
     tests = [n.test for n in ast.walk(oi.node) if isinstance(n, ast.If) and any(isinstance(x, ast.Name) and x.id == "config" for x in ast.walk(n.test))]
     run.require(bool(tests), "Orchestrator.__init__: no test on the config parameter")
